@@ -390,12 +390,141 @@ fn index_case(rep: &mut Report, rng: &mut Rng) {
     }
 }
 
+/// get_array / set_array / to_array / assign_array on static-rank views: M
+/// consecutive elements along one dimension are read or written through
+/// unchecked offsets after a bounds assertion. A request that does not fit must
+/// panic; one that fits must touch exactly those M elements.
+fn array_access_case(rep: &mut Report, rng: &mut Rng) {
+    use rten_tensor::{NdTensorView, NdTensorViewMut};
+    rep.eval();
+    let lay = gen_layout(rng, &LayOpts { max_rank: 3, max_dim: 5, allow_broadcast: false, allow_zero: true });
+    let rank = lay.shape.len();
+    if rank == 0 || rank > 3 {
+        return;
+    }
+    // Guard zone around the storage: writes outside the view's extent land in it.
+    let pad = 8usize;
+    let mut buf: Vec<i32> = vec![-7; lay.storage_len + 2 * pad];
+    for (i, x) in buf[pad..pad + lay.storage_len].iter_mut().enumerate() {
+        *x = i as i32;
+    }
+    let dim = rng.below(rank);
+    let mut base: Vec<usize> = lay.shape.iter().map(|d| if *d == 0 { 0 } else { rng.below(*d) }).collect();
+    const MS: [usize; 4] = [1, 2, 3, 4];
+    let m = *rng.choose(&MS);
+    // Bias towards the boundary: start so that the run ends at size-1, size or size+1.
+    if lay.shape[dim] > 0 && rng.chance(2, 3) {
+        let end = lay.shape[dim] + rng.below(3);
+        base[dim] = (end.saturating_sub(m)).min(lay.shape[dim]);
+    }
+    let fits = base.iter().zip(&lay.shape).all(|(b, d)| b < d) && base[dim] + m <= lay.shape[dim];
+    let sig = format!("{}|base={:?}|dim={}|M={}", lay.sig(), base, dim, m);
+    macro_rules! with_rank {
+        ($n:literal) => {{
+            let shape: [usize; $n] = lay.shape.clone().try_into().unwrap();
+            let strides: [usize; $n] = lay.strides.clone().try_into().unwrap();
+            let b: [usize; $n] = base.clone().try_into().unwrap();
+            // read
+            let region = &buf[pad..pad + lay.storage_len];
+            let Ok(view) = NdTensorView::<i32, $n>::from_slice_with_strides(shape, region, strides) else {
+                rep.count("layout_rejected_by_constructor");
+                return;
+            };
+            macro_rules! with_m {
+                ($mm:literal) => {{
+                    let got = catch(|| view.get_array::<$mm>(b, dim).to_vec());
+                    match got {
+                        Ok(vals) => {
+                            if !fits {
+                                rep.violation(
+                                    format!("C06|get_array|{}", sig),
+                                    format!("get_array::<{}>({:?}, {}) on {} returned {:?} although the run does not fit in dimension {} of size {}", $mm, base, dim, lay.sig(), vals, dim, lay.shape[dim]),
+                                    json!({"mode": "array", "layout": lay.to_json(), "base": base, "dim": dim, "m": m}),
+                                );
+                            } else {
+                                let want: Vec<i32> = (0..$mm)
+                                    .map(|k| {
+                                        let mut idx = base.clone();
+                                        idx[dim] += k;
+                                        lay.offset_of(&idx) as i32
+                                    })
+                                    .collect();
+                                if vals != want {
+                                    rep.count("get_array_wrong_elements_reported_under_C09");
+                                }
+                            }
+                        }
+                        Err(_) => {
+                            if fits {
+                                rep.count("get_array_panicked_on_valid_request");
+                            } else {
+                                rep.count("get_array_refused");
+                            }
+                        }
+                    }
+                }};
+            }
+            match m {
+                1 => with_m!(1),
+                2 => with_m!(2),
+                3 => with_m!(3),
+                _ => with_m!(4),
+            }
+            // write (only layouts a mutable view accepts)
+            let before = buf.clone();
+            let wrote = {
+                let region = &mut buf[pad..pad + lay.storage_len];
+                match NdTensorViewMut::<i32, $n>::from_data_with_strides(shape, region, strides) {
+                    Err(_) => None,
+                    Ok(mut v) => Some(catch(std::panic::AssertUnwindSafe(|| match m {
+                        1 => v.set_array::<1>(b, dim, [1000; 1]),
+                        2 => v.set_array::<2>(b, dim, [1000; 2]),
+                        3 => v.set_array::<3>(b, dim, [1000; 3]),
+                        _ => v.set_array::<4>(b, dim, [1000; 4]),
+                    }))),
+                }
+            };
+            if let Some(res) = wrote {
+                let changed: Vec<usize> = buf.iter().zip(&before).enumerate().filter(|(_, (a, b))| a != b).map(|(i, _)| i).collect();
+                let allowed: Vec<usize> = if fits {
+                    (0..m)
+                        .map(|k| {
+                            let mut idx = base.clone();
+                            idx[dim] += k;
+                            pad + lay.offset_of(&idx)
+                        })
+                        .collect()
+                } else {
+                    Vec::new()
+                };
+                let stray: Vec<isize> = changed.iter().filter(|i| !allowed.contains(i)).map(|i| *i as isize - pad as isize).collect();
+                if !stray.is_empty() || (res.is_ok() && !fits) {
+                    rep.violation(
+                        format!("C06|set_array|{}", sig),
+                        format!("set_array::<{}>({:?}, {}) on {} (fits: {}) returned {} and wrote storage offsets {:?} outside the requested run (storage has {} elements)", m, base, dim, lay.sig(), fits, if res.is_ok() { "normally" } else { "by panic" }, stray, lay.storage_len),
+                        json!({"mode": "array", "layout": lay.to_json(), "base": base, "dim": dim, "m": m}),
+                    );
+                }
+            }
+        }};
+    }
+    match rank {
+        1 => with_rank!(1),
+        2 => with_rank!(2),
+        _ => with_rank!(3),
+    }
+    rep.count("array_access_cases");
+    if !fits {
+        rep.nontrivial(&("array", &lay, &base, dim, m));
+    }
+}
+
 pub fn run(args: &Args) {
     let mut rep = Report::new(
         "C06",
         "tensorcheck safety",
         args,
-        "adversarial constructor arguments (wrapping products, huge strides, short storage, rank-mismatched layouts) decided by 128-bit arithmetic; chains of view operations with extent checks against the owning allocation; iterator histories on immutable and mutable views with every handed-out reference address-checked before use and mutable references checked for duplicates; hostile indices. non-trivial = constructor case with a dimension > 2^16, or a chain / history on a non-contiguous layout; distinct by case identity",
+        "adversarial constructor arguments (wrapping products, huge strides, short storage, rank-mismatched layouts) decided by 128-bit arithmetic; chains of view operations with extent checks against the owning allocation; iterator histories on immutable and mutable views with every handed-out reference address-checked before use and mutable references checked for duplicates; hostile indices. non-trivial = constructor case with a dimension > 2^16, or a chain / history on a non-contiguous layout; distinct by case identity; get_array / set_array::<1..4> on static-rank views with runs ending at, before and one past the end of a dimension, inside a guard zone: a run that does not fit must panic and nothing outside the run may be written",
     );
     rep.max_samples = 8;
     let miri = cfg!(miri);
@@ -423,6 +552,7 @@ pub fn run(args: &Args) {
     }
     for _ in 0..args.budget(if miri { 100 } else { 20_000 }, 2_000_000) {
         index_case(&mut rep, &mut rng);
+        array_access_case(&mut rep, &mut rng);
     }
 
     // ---- 2. view-operation chains with the extent monitor
